@@ -78,6 +78,10 @@ func Gen(t *tape.Tape, base string, o Opts) *Layout {
 			l.Sents[l.Top+"/inner/go.mod"] = []string{"module example.com/inner\n", "", "// nested module\nmodule example.com/inner\n", "module example.com/inner\n"}[t.Draw(4)]
 		}
 	}
+	if !l.HasMod && o.NestedMod && t.Bool(1, 3) {
+		// no module at the top, but a module below it: a script outside any module imports into one
+		l.Sents[l.Top+"/inner/go.mod"] = "module example.com/inner\n"
+	}
 	n := t.Range(2, o.MaxFiles)
 	used := map[string]bool{}
 	for i := 0; i < n; i++ {
